@@ -58,8 +58,9 @@ class World:
         self.files = [os.path.join(_tmpdir(), "shard%d.db" % i) for i in range(NSH_MAX)]
         self.engines = [sa.create_engine("sqlite:///" + f) for f in self.files]
         Base = declarative_base()
+        from harness.lib_orm2 import odd_mixin
 
-        class T(Base):
+        class T(odd_mixin("id", "region", "val"), Base):
             __tablename__ = "t"
             id = sa.Column(sa.Integer, primary_key=True, autoincrement=False)
             region = sa.Column(sa.Integer)
